@@ -157,7 +157,9 @@ func c02FreeIP(p *chk.Prog, r *chk.Report) {
 	n := 0
 	for _, rt := range returnsOf(g) {
 		res := retResults(rt)
-		if len(res) != 1 || f.IsNilLit(res[0]) {
+		// the address is the first result (a found-flag may accompany it: every non-nil address is checked whatever
+		// the flag says)
+		if len(res) < 1 || len(res) > 2 || f.IsNilLit(res[0]) {
 			continue
 		}
 		n++
@@ -616,7 +618,19 @@ func c02Annotation(p *chk.Prog, r *chk.Report) {
 	for _, s := range g.FindPat("RECV.ips.Assign(K, S, IPS, ETC)", chk.H("K", key)) {
 		lbIPs = f.ObjOf(s.Node.(*ast.CallExpr).Args[2])
 	}
-	reset := f.IsAssignPat("L", "[]net.IP{}", chk.H("L", f.IsObj(lbIPs)))
+	// emptied: the empty literal, nil, an empty make or a zero-length reslice (all of length 0, which is all that is read)
+	resets := []func(ast.Node) bool{}
+	for _, form := range []string{"[]net.IP{}", "nil", "make([]net.IP, 0)", "L[:0]", "[]net.IP(nil)"} {
+		resets = append(resets, f.IsAssignPat("L", form, chk.H("L", f.IsObj(lbIPs))))
+	}
+	reset := func(n ast.Node) bool {
+		for _, rf := range resets {
+			if rf(n) {
+				return true
+			}
+		}
+		return false
+	}
 	check := func(name string, guard chk.Guard) {
 		es := g.EdgesImplying(guard)
 		if len(es) == 0 {
@@ -750,6 +764,57 @@ func c02FamilySelect(p *chk.Prog, r *chk.Report) {
 		}
 		x.Check("select:returns", f.Pos(), n >= 5, "", "fewer success returns than on the confirmed tree")
 	}
+	// the slot form: a pointer variable that is assigned &RECV.IPV4 / &RECV.IPV6 (or nil) and read / written through
+	// afterwards - every such assignment must sit under the test for the field's own family
+	slotDefs := func(fn *chk.Fn, g *chk.Graph, e ast.Expr) (sites []chk.Site, flds []string, ok bool) {
+		st, isStar := ast.Unparen(e).(*ast.StarExpr)
+		if !isStar {
+			return nil, nil, false
+		}
+		id, isId := ast.Unparen(st.X).(*ast.Ident)
+		if !isId || fn.ObjOf(id) == nil {
+			return nil, nil, false
+		}
+		o := fn.ObjOf(id)
+		ok = true
+		for _, s := range g.Find(func(n ast.Node) bool {
+			as, isAs := n.(*ast.AssignStmt)
+			if !isAs || len(as.Lhs) != len(as.Rhs) {
+				return false
+			}
+			for _, l := range as.Lhs {
+				if li, isI := l.(*ast.Ident); isI && fn.ObjOf(li) == o {
+					return true
+				}
+			}
+			return false
+		}) {
+			as := s.Node.(*ast.AssignStmt)
+			for i, l := range as.Lhs {
+				if li, isI := l.(*ast.Ident); !isI || fn.ObjOf(li) != o {
+					continue
+				}
+				rhs := ast.Unparen(as.Rhs[i])
+				if fn.IsNilLit(rhs) {
+					continue
+				}
+				u, isU := rhs.(*ast.UnaryExpr)
+				if !isU || u.Op != token.AND {
+					ok = false
+					continue
+				}
+				sel, isSel := ast.Unparen(u.X).(*ast.SelectorExpr)
+				if !isSel || !isRecv(fn)(sel.X) {
+					ok = false
+					continue
+				}
+				sites = append(sites, s)
+				flds = append(flds, sel.Sel.Name)
+			}
+		}
+		return sites, flds, ok && len(sites) > 0
+	}
+	famOf := map[string]string{"IPV4": "internal/ipfamily.IPv4", "IPV6": "internal/ipfamily.IPv6"}
 	gf := need(x, p, allocPkg, "Allocation", "getIPForFamily")
 	if gf != nil {
 		g := gf.Graph()
@@ -758,19 +823,25 @@ func c02FamilySelect(p *chk.Prog, r *chk.Report) {
 			if len(res) != 1 || gf.IsNilLit(res[0]) {
 				continue
 			}
-			b := gf.MatchWith("RECV.FIELD", res[0])
+			if sites, flds, isSlot := slotDefs(gf, g, res[0]); isSlot {
+				for i, s := range sites {
+					want := famOf[flds[i]]
+					x.Check("getIPForFamily:"+flds[i], s.Pos(), want != "" && g.Dominated(s, g.GPat(true, "F == V", chk.H("F", isParamIdx(gf, 0)), chk.H("V", isObjNamed(gf, want)))), "", "getIPForFamily returns field "+flds[i]+" for the wrong family")
+				}
+				continue
+			}
 			var fld string
 			if sel, ok := ast.Unparen(res[0]).(*ast.SelectorExpr); ok && isRecv(gf)(sel.X) {
 				fld = sel.Sel.Name
 			}
-			_ = b
-			want := map[string]string{"IPV4": "internal/ipfamily.IPv4", "IPV6": "internal/ipfamily.IPv6"}[fld]
+			want := famOf[fld]
 			x.Check("getIPForFamily:"+fld, rt.Pos(), want != "" && g.Dominated(rt, g.GPat(true, "F == V", chk.H("F", isParamIdx(gf, 0)), chk.H("V", isObjNamed(gf, want)))), "", "getIPForFamily returns field "+fld+" for the wrong family")
 		}
 	}
 	sf := need(x, p, allocPkg, "Allocation", "setIPForFamily")
 	if sf != nil {
 		g := sf.Graph()
+		nw := 0
 		for _, fld := range []string{"IPV4", "IPV6"} {
 			ws := g.Find(func(n ast.Node) bool {
 				as, ok := n.(*ast.AssignStmt)
@@ -780,13 +851,37 @@ func c02FamilySelect(p *chk.Prog, r *chk.Report) {
 				sel, ok := as.Lhs[0].(*ast.SelectorExpr)
 				return ok && sel.Sel.Name == fld && isRecv(sf)(sel.X)
 			})
-			want := map[string]string{"IPV4": "internal/ipfamily.IPv4", "IPV6": "internal/ipfamily.IPv6"}[fld]
+			want := famOf[fld]
 			for _, w := range ws {
+				nw++
 				ok := g.Dominated(w, g.GPat(true, "F == V", chk.H("F", isParamIdx(sf, 0)), chk.H("V", isObjNamed(sf, want)))) &&
 					isParamIdx(sf, 1)(w.Node.(*ast.AssignStmt).Rhs[0])
 				x.Check("setIPForFamily:"+fld, w.Pos(), ok, "", "setIPForFamily stores into "+fld+" for the wrong family")
 			}
 		}
+		// stores through a slot pointer
+		for _, w := range g.Find(func(n ast.Node) bool {
+			as, ok := n.(*ast.AssignStmt)
+			if !ok || len(as.Lhs) != 1 || len(as.Rhs) != 1 {
+				return false
+			}
+			_, isStar := ast.Unparen(as.Lhs[0]).(*ast.StarExpr)
+			return isStar
+		}) {
+			as := w.Node.(*ast.AssignStmt)
+			sites, flds, isSlot := slotDefs(sf, g, as.Lhs[0])
+			if !isSlot {
+				x.Fail("setIPForFamily:store-through-pointer", w.Pos(), "setIPForFamily stores through a pointer that is not the address of one of the receiver's address fields")
+				continue
+			}
+			for i, s := range sites {
+				nw++
+				want := famOf[flds[i]]
+				ok := want != "" && g.Dominated(s, g.GPat(true, "F == V", chk.H("F", isParamIdx(sf, 0)), chk.H("V", isObjNamed(sf, want)))) && isParamIdx(sf, 1)(as.Rhs[0])
+				x.Check("setIPForFamily:"+flds[i], s.Pos(), ok, "", "setIPForFamily stores into "+flds[i]+" for the wrong family")
+			}
+		}
+		x.Check("setIPForFamily:stores", sf.Pos(), nw >= 2, "", "setIPForFamily does not store into both address fields")
 	}
 	y := r.Rule("FAMILY-SLOT", "E sibling", "in (*Allocator).getFreeIPsFromPool the address found in a CIDR (getIPFromCIDR(cidr, pool.AvoidBuggyIPs, …)) is stored under ipfamily.ForCIDR of that same CIDR, the allocation carries pool.Name, and only CIDRs of that one pool are visited", 3)
 	ff := need(y, p, allocPkg, "Allocator", "getFreeIPsFromPool")
